@@ -223,7 +223,19 @@ Fixpoint values_loop (ftab : list (N * bytes)) (mult : option N) (os : list obs)
 
 Definition counts_prefix : bytes := bs "],""Counts"":[".
 
-(* write_metric_value: text appended to fields_buf, or None when the metric is skipped *)
+(* the Values/Counts form: every case of write_metric_value but the two scalar ones *)
+Definition general_value (ftab : list (N * bytes)) (mult : option N) (name : bytes) (first : obs) (rest : list obs)
+  : bytes * bool :=
+  let head := comma ++ jstr name ++ [58] in
+  let '(b0, c0, w0) :=
+    match write_observation ftab mult first with
+    | Some (v, c) => (v, c, true)
+    | None => ([], [], false)
+    end in
+  let '(buf, cnt, any) := values_loop ftab mult rest b0 c0 w0 in
+  (head ++ bs "{""Values"":[" ++ buf ++ counts_prefix ++ cnt ++ bs "]}", any).
+
+(* write_metric_value: (text appended to fields_buf, written?) — false when the metric is skipped *)
 Definition write_metric_value (ftab : list (N * bytes)) (mult : option N) (name : bytes) (first : obs) (rest : list obs)
   : bytes * bool (* appended text, ok *) :=
   let head := comma ++ jstr name ++ [58] in
@@ -234,14 +246,7 @@ Definition write_metric_value (ftab : list (N * bytes)) (mult : option N) (name 
       | Some f => (head ++ write_float ftab f, true)
       | None => (head, false)
       end
-  | _, _, _ =>
-      let '(b0, c0, w0) :=
-        match write_observation ftab mult first with
-        | Some (v, c) => (v, c, true)
-        | None => ([], [], false)
-        end in
-      let '(buf, cnt, any) := values_loop ftab mult rest b0 c0 w0 in
-      (head ++ bs "{""Values"":[" ++ buf ++ counts_prefix ++ cnt ++ bs "]}", any)
+  | _, _, _ => general_value ftab mult name first rest
   end.
 
 (* write_metric on (fields_buf, metrics_buf): returns the new pair *)
